@@ -130,57 +130,7 @@ Proof.
     intros s Hs. apply Vc. exact Hs.
 Qed.
 
-(* ------------------------------------------------------------------ the resolver on objects and on values *)
-Section ResolveMap.
-  Context {A B : Type} (g : A -> B) (nm : A -> option str) (pr : A -> Z) (nm' : B -> option str) (pr' : B -> Z).
-  Hypothesis nm_g : forall x, nm' (g x) = nm x.
-  Hypothesis pr_g : forall x, pr' (g x) = pr x.
-  Definition gx (x : A * str) : B * str := (g (fst x), snd x).
-
-  Lemma reg_lookup_map reg s : reg_lookup nm' (map g reg) s = option_map g (reg_lookup nm reg s).
-  Proof.
-    induction reg as [|p reg IH]; cbn; [reflexivity|]. rewrite IH.
-    destruct (reg_lookup nm reg s); cbn; [reflexivity|]. rewrite nm_g.
-    destruct (oname_eqb (nm p) s); reflexivity.
-  Qed.
-  Lemma resolve_all_map reg specs :
-    resolve_all nm' (map g reg) specs = option_map (map gx) (resolve_all nm reg specs).
-  Proof.
-    induction specs as [|s specs IH]; cbn; [reflexivity|]. rewrite reg_lookup_map, IH.
-    destruct (reg_lookup nm reg s); cbn; [|reflexivity]. destruct (resolve_all nm reg specs); reflexivity.
-  Qed.
-  Lemma info_leb_map x y : info_leb pr' (gx x) (gx y) = info_leb pr x y.
-  Proof. unfold info_leb, info_key, gx. cbn. rewrite !pr_g. reflexivity. Qed.
-  Lemma insert_map x l : insert (info_leb pr') (gx x) (map gx l) = map gx (insert (info_leb pr) x l).
-  Proof.
-    induction l as [|y l IH]; cbn; [reflexivity|]. rewrite info_leb_map.
-    destruct (info_leb pr x y); cbn; [reflexivity|]. rewrite IH. reflexivity.
-  Qed.
-  Lemma isort_map l : isort (info_leb pr') (map gx l) = map gx (isort (info_leb pr) l).
-  Proof. induction l as [|x l IH]; cbn; [reflexivity|]. rewrite IH. apply insert_map. Qed.
-  Lemma resolve_order_map reg specs :
-    resolve_order nm' pr' (map g reg) specs = option_map (map g) (resolve_order nm pr reg specs).
-  Proof.
-    unfold resolve_order. rewrite resolve_all_map. destruct (resolve_all nm reg specs) as [l|]; cbn; [|reflexivity].
-    rewrite isort_map, !map_map. reflexivity.
-  Qed.
-End ResolveMap.
-
-Lemma resolve_order_in reg specs l : resolve_order p_name p_prio reg specs = Some l ->
-  forall q, In q l -> In q reg.
-Proof.
-  intros E q Hq. unfold resolve_order in E.
-  destruct (resolve_all p_name reg specs) as [l0|] eqn:E0; [|discriminate].
-  inversion E as [E1]. assert (Hin : In q (map fst (isort (info_leb p_prio) l0))) by (rewrite E1; exact Hq).
-  apply in_map_iff in Hin. destruct Hin as (x & Hx & Hin). subst q.
-  apply (Permutation_in _ (isort_perm _ l0)) in Hin.
-  pose proof (resolve_all_lookup p_name reg specs l0 E0 x Hin) as Hlk.
-  clear - Hlk. induction reg as [|r reg IH]; cbn in Hlk; [discriminate|].
-  destruct (reg_lookup p_name reg (snd x)) eqn:Er.
-  - right. apply IH. congruence.
-  - destruct (oname_eqb (p_name r) (snd x)); [left; congruence | discriminate].
-Qed.
-
+(* ------------------------------------------------------------------ sums and the resolver, on objects and on values *)
 Definition afold (l : list apipe) (acc : outcome apipe) : outcome apipe :=
   fold_left (fun acc q => obind acc (fun s => aplus_checked s q)) l acc.
 
@@ -226,20 +176,56 @@ Proof.
     apply (psum_fold_sim l h h (Ok p)); [apply frame_refl | exact Vl | intros s Hs; inversion Hs; subst; exact Vp | exact E].
 Qed.
 
-Definition gentry (h : heap) (p : ppl) : aentry := (abs h p, p_prio p, p_name p).
+Definition gval (h : heap) (p : ppl) : aval := (abs h p, p_prio p).
+Definition gent (h : heap) (e : str * rent ppl) : str * rent aval :=
+  (fst e, match snd e with RObj p => RObj (gval h p) | RCall d => RCall d | RSeq ds => RSeq ds end).
 
-Lemma resolve_sim h reg specs h' r : Forall (valid h) reg -> resolve h reg specs = (h', r) ->
-  absr h' r = aresolve (map (gentry h) reg) specs /\ frame h h' /\ (forall s, r = Ok s -> valid h' s).
+Lemma ainst_objs h c l : (forall x, In x l -> is_obj (fst x)) ->
+  ainst_all c (map (gx (gent h)) l) = (map (gx (gval h)) (map (gx ent_ppl) l), c).
 Proof.
-  intros V E. unfold resolve in E. unfold aresolve.
-  rewrite (resolve_order_map (gentry h) p_name p_prio) by reflexivity.
-  destruct (resolve_order p_name p_prio reg specs) as [l|] eqn:Eo; cbn [option_map].
-  - rewrite map_map. cbn [gentry fst].
-    assert (Vl : Forall (valid h) l).
-    { rewrite Forall_forall in *. intros q Hq. apply V. eapply resolve_order_in; eassumption. }
-    replace (map (fun x : ppl => abs h x) l) with (map (abs h) l) by reflexivity.
-    apply psum_sim; assumption.
-  - inversion E; subst. cbn. split; [reflexivity|]. split; [apply frame_refl | intros; discriminate].
+  induction l as [|es l IH]; intros H; [reflexivity|]. cbn [map ainst_all].
+  destruct (H es (or_introl eq_refl)) as [p Hp]. destruct es as [[k e] sp]. cbn [fst snd] in Hp. subst e.
+  change (gx (gent h) (k, RObj p, sp)) with ((k, RObj (gval h p)), sp). cbn [fst snd].
+  rewrite IH by (intros x Hx; apply H; right; exact Hx). reflexivity.
+Qed.
+
+Lemma resolve_sim h c t specs h' c' r : objs_only t -> (forall e, In e t -> valid h (ent_ppl e)) ->
+  resolve h c t specs = ((h', c'), r) ->
+  absr h' r = fst (aresolve c (map (gent h) t) specs) /\ c' = snd (aresolve c (map (gent h) t) specs) /\ frame h h' /\ (forall s, r = Ok s -> valid h' s).
+Proof.
+  intros O V E. rewrite resolve_objs in E by exact O. unfold aresolve.
+  rewrite (resolve_all_map (gent h) tab_nm tab_nm) by reflexivity.
+  unfold resolve_order in E. destruct (resolve_all tab_nm t specs) as [l|] eqn:El; cbn [option_map].
+  - rewrite ainst_objs by (intros x Hx; apply O; eapply resolve_all_in; eassumption). cbn [fst snd].
+    rewrite (isort_map (gval h) p_prio (fun a : aval => snd a)) by reflexivity.
+    rewrite (isort_map ent_ppl ent_prio p_prio ent_ppl_prio).
+    cbn zeta in E.
+    destruct (psum h (map ent_ppl (map fst (isort (info_leb ent_prio) l)))) as [h1 r1] eqn:Ep.
+    cbn [fst snd] in E. inversion E; subst; clear E.
+    assert (Vl : Forall (valid h) (map ent_ppl (map fst (isort (info_leb ent_prio) l)))).
+    { rewrite Forall_forall. intros q Hq. apply in_map_iff in Hq. destruct Hq as (e & <- & He). apply V.
+      apply in_map_iff in He. destruct He as (x & <- & Hx).
+      apply (Permutation_in _ (isort_perm _ l)) in Hx. eapply resolve_all_in; eassumption. }
+    destruct (psum_sim _ _ _ _ Vl Ep) as (S & F & Vs).
+    split; [|split; [reflexivity | split; assumption]].
+    rewrite S. f_equal. rewrite !map_map. reflexivity.
+  - inversion E; subst. cbn. split; [reflexivity|]. split; [reflexivity|]. split; [apply frame_refl | intros; discriminate].
+Qed.
+
+Lemma nths_map {A B} (g : A -> B) l is : nths (map g l) is = option_map (map g) (nths l is).
+Proof.
+  induction is as [|i is IH]; cbn; [reflexivity|]. rewrite IH.
+  destruct (nth_error l i) as [a|] eqn:E.
+  - rewrite (map_nth_error _ _ _ E). destruct (nths l is); reflexivity.
+  - assert (En : nth_error (map g l) i = None) by (apply nth_error_None; rewrite map_length; apply nth_error_None; exact E).
+    rewrite En. reflexivity.
+Qed.
+Lemma nths_in {A} (l : list A) is r : nths l is = Some r -> forall x, In x r -> In x l.
+Proof.
+  revert r. induction is as [|i is IH]; cbn; intros r H x Hx.
+  - inversion H; subst. contradiction.
+  - destruct (nth_error l i) as [a|] eqn:E; [|discriminate]. destruct (nths l is) as [r'|]; [|discriminate].
+    inversion H; subst. destruct Hx as [<-|Hx]; [eapply nth_error_In; exact E | eapply IH; [reflexivity | exact Hx]].
 Qed.
 
 (* ------------------------------------------------------------------ backend initialisation *)
@@ -294,7 +280,7 @@ Definition oabs (h : heap) (o : option ppl) : option apipe := option_map (abs h)
 Definition ovalid (h : heap) (o : option ppl) : Prop := forall p, o = Some p -> valid h p.
 Definition amach_of (h : heap) (m : mach) : amach :=
   {| am_regs := map (abs h) (mc_regs m); am_lastA := oabs h (mc_lastA m); am_lastB := oabs h (mc_lastB m);
-     am_res := mc_res m |}.
+     am_res := mc_res m; am_fresh := mc_fresh m |}.
 Definition allvalid (h : heap) (m : mach) : Prop :=
   Forall (valid h) (mc_regs m) /\ ovalid h (mc_lastA m) /\ ovalid h (mc_lastB m).
 
@@ -307,22 +293,25 @@ Proof.
 Qed.
 
 Section Machines.
-  Variables (f : fmt) (reg : list ppl) (bk outf : ppl) (rules : list rule).
+  Variables (f : fmt) (t : list (str * rent ppl)) (bk outf : ppl) (rules : list rule).
+  Hypothesis t_objs : objs_only t.
 
-  Definition fixedok (h : heap) : Prop := Forall (valid h) reg /\ valid h bk /\ valid h outf.
-  Definition inv (m : mach) (a : amach) (areg : list aentry) (abk aoutf : apipe) : Prop :=
+  Definition fixedok (h : heap) : Prop := (forall e, In e t -> valid h (ent_ppl e)) /\ valid h bk /\ valid h outf.
+  Definition inv (m : mach) (a : amach) (atab : list (str * rent aval)) (abk aoutf : apipe) : Prop :=
     a = amach_of (mc_heap m) m /\ allvalid (mc_heap m) m /\ fixedok (mc_heap m) /\
-    areg = map (gentry (mc_heap m)) reg /\ abk = abs (mc_heap m) bk /\ aoutf = abs (mc_heap m) outf.
+    atab = map (gent (mc_heap m)) t /\ abk = abs (mc_heap m) bk /\ aoutf = abs (mc_heap m) outf.
 
   Lemma fixed_frame h h' : frame h h' -> fixedok h ->
-    fixedok h' /\ map (gentry h') reg = map (gentry h) reg /\ abs h' bk = abs h bk /\ abs h' outf = abs h outf.
+    fixedok h' /\ map (gent h') t = map (gent h) t /\ abs h' bk = abs h bk /\ abs h' outf = abs h outf.
   Proof.
     intros F (Vr & Vb & Vo).
-    destruct (valid_all_frame _ _ _ F Vr) as [Vr' _].
     destruct (abs_stable _ _ bk F Vb) as [Eb Vb'], (abs_stable _ _ outf F Vo) as [Eo Vo'].
-    split; [repeat split; assumption|]. split; [|split; assumption].
-    apply map_ext_in. intros p Hp. unfold gentry. rewrite Forall_forall in Vr.
-    destruct (abs_stable _ _ p F (Vr p Hp)) as [E _]. rewrite E. reflexivity.
+    split; [split; [|split; assumption]|]. 
+    - intros e He. apply (abs_stable h h' _ F). apply Vr. exact He.
+    - split; [|split; assumption].
+      apply map_ext_in. intros e He. unfold gent. specialize (Vr e He). unfold ent_ppl in Vr.
+      destruct (snd e) as [p|d|ds]; [|reflexivity|reflexivity].
+      unfold gval. destruct (abs_stable _ _ p F Vr) as [E _]. rewrite E. reflexivity.
   Qed.
   Lemma mach_frame h h' m : frame h h' -> allvalid h m -> amach_of h' m = amach_of h m /\ allvalid h' m.
   Proof.
@@ -331,54 +320,53 @@ Section Machines.
     split; [unfold amach_of; rewrite Er, Ea, Eb; reflexivity | repeat split; assumption].
   Qed.
 
-  Definition osim (mo : outcome mach) (ao : outcome amach) (areg : list aentry) (abk aoutf : apipe) : Prop :=
+  Definition osim (mo : outcome mach) (ao : outcome amach) (atab : list (str * rent aval)) (abk aoutf : apipe) : Prop :=
     match mo, ao with
-    | Ok m', Ok a' => inv m' a' areg abk aoutf
-    | SigmaErr t, SigmaErr t' => t = t'
-    | Crash t, Crash t' => t = t'
+    | Ok m', Ok a' => inv m' a' atab abk aoutf
+    | SigmaErr x, SigmaErr x' => x = x'
+    | Crash x, Crash x' => x = x'
     | _, _ => False
     end.
 
   (* pushing the result of an allocation-only operation *)
-  Lemma push_sim m a areg abk aoutf h' r ar :
-    inv m a areg abk aoutf -> frame (mc_heap m) h' -> absr h' r = ar -> (forall s, r = Ok s -> valid h' s) ->
-    osim (mc_push m (h', r))
-         (obind ar (fun p => Ok {| am_regs := am_regs a ++ [p]; am_lastA := am_lastA a; am_lastB := am_lastB a; am_res := am_res a |}))
-         areg abk aoutf.
+  Lemma push_sim m a atab abk aoutf c h' r ar :
+    inv m a atab abk aoutf -> frame (mc_heap m) h' -> absr h' r = ar -> (forall s, r = Ok s -> valid h' s) ->
+    osim (mc_push m c (h', r)) (obind ar (fun p => Ok (am_push a c p))) atab abk aoutf.
   Proof.
     intros (Ea & Av & Fx & Er & Eb & Eo) F S V. subst ar. unfold mc_push. cbn [snd fst].
-    destruct r as [s|t|t]; cbn [absr obind osim]; try reflexivity.
+    destruct r as [s|x|x]; cbn [absr obind osim]; try reflexivity.
     destruct (mach_frame _ _ m F Av) as [Em (Vr & Va & Vb)].
     destruct (fixed_frame _ _ F Fx) as (Fx' & Er' & Eb' & Eo').
-    unfold inv. cbn [mc_heap mc_regs mc_lastA mc_lastB mc_res].
+    unfold inv. cbn [mc_heap mc_regs mc_lastA mc_lastB mc_res mc_fresh].
     split; [|split; [|split; [exact Fx' | split; [congruence | split; congruence]]]].
-    - subst a. unfold amach_of in *. cbn [mc_regs mc_lastA mc_lastB mc_res am_regs am_lastA am_lastB am_res] in *.
+    - subst a. unfold amach_of, am_push in *.
+      cbn [mc_regs mc_lastA mc_lastB mc_res mc_fresh am_regs am_lastA am_lastB am_res am_fresh] in *.
       inversion Em as [[E1 E2 E3]]. rewrite map_app. cbn [map]. rewrite E1, E2, E3. reflexivity.
     - unfold allvalid. cbn [mc_regs mc_lastA mc_lastB]. split; [|split; assumption].
       apply Forall_app. split; [exact Vr | constructor; [apply V; reflexivity | constructor]].
   Qed.
 
-  Lemma setlast_sim m a areg abk aoutf b h' r ar :
-    inv m a areg abk aoutf -> frame (mc_heap m) h' -> absr h' r = ar -> (forall s, r = Ok s -> valid h' s) ->
-    osim (mc_set_last m b (h', r)) (obind ar (fun p => Ok (am_set_last a b p))) areg abk aoutf.
+  Lemma setlast_sim m a atab abk aoutf b h' r ar :
+    inv m a atab abk aoutf -> frame (mc_heap m) h' -> absr h' r = ar -> (forall s, r = Ok s -> valid h' s) ->
+    osim (mc_set_last m b (h', r)) (obind ar (fun p => Ok (am_set_last a b p))) atab abk aoutf.
   Proof.
     intros (Ea & Av & Fx & Er & Eb & Eo) F S V. subst ar. unfold mc_set_last. cbn [snd fst].
-    destruct r as [s|t|t]; cbn [absr obind osim]; try reflexivity.
+    destruct r as [s|x|x]; cbn [absr obind osim]; try reflexivity.
     destruct (mach_frame _ _ m F Av) as [Em (Vr & Va & Vb)].
     destruct (fixed_frame _ _ F Fx) as (Fx' & Er' & Eb' & Eo').
-    unfold inv. cbn [mc_heap mc_regs mc_lastA mc_lastB mc_res].
+    unfold inv. cbn [mc_heap mc_regs mc_lastA mc_lastB mc_res mc_fresh].
     split; [|split; [|split; [exact Fx' | split; [congruence | split; congruence]]]].
     - subst a. unfold amach_of, am_set_last in *.
-      cbn [mc_regs mc_lastA mc_lastB mc_res am_regs am_lastA am_lastB am_res] in *.
+      cbn [mc_regs mc_lastA mc_lastB mc_res mc_fresh am_regs am_lastA am_lastB am_res am_fresh] in *.
       inversion Em as [[E1 E2 E3]]. rewrite E1. destruct b; cbn [oabs option_map]; rewrite ?E2, ?E3; reflexivity.
     - unfold allvalid. cbn [mc_regs mc_lastA mc_lastB]. split; [exact Vr|].
       destruct b; split; try assumption; intros q Hq; inversion Hq; subst; apply V; reflexivity.
   Qed.
 
-  Lemma user_sim m a areg abk aoutf u : inv m a areg abk aoutf ->
+  Lemma user_sim m a atab abk aoutf u : inv m a atab abk aoutf ->
     match mc_user m u, am_user a u with
     | Ok up, Ok aup => aup = oabs (mc_heap m) up /\ ovalid (mc_heap m) up
-    | Crash t, Crash t' => t = t'
+    | Crash x, Crash x' => x = x'
     | _, _ => False
     end.
   Proof.
@@ -392,15 +380,14 @@ Section Machines.
       rewrite En. reflexivity.
   Qed.
 
-  Lemma run_sim m a areg abk aoutf b :
-    inv m a areg abk aoutf ->
+  Lemma run_sim m a atab abk aoutf b :
+    inv m a atab abk aoutf ->
     (forall p, mc_last m b = Some p -> owned (mc_heap m) p) ->
     osim (mc_run f rules m b)
          (match am_last a b with
           | None => Crash C_Harness
-          | Some p => obind (abs_run f p rules) (fun r =>
-              Ok {| am_regs := am_regs a; am_lastA := am_lastA a; am_lastB := am_lastB a; am_res := Some r |})
-          end) areg abk aoutf.
+          | Some p => obind (abs_run f p rules) (fun r => Ok (am_with_res a r))
+          end) atab abk aoutf.
   Proof.
     intros (Ea & Av & Fx & Er & Eb & Eo) O. unfold mc_run.
     assert (El : am_last a b = oabs (mc_heap m) (mc_last m b)).
@@ -409,60 +396,67 @@ Section Machines.
     rewrite <- (behaviour _ f p rules (O p eq_refl)).
     pose proof (run_pres (mc_heap m) f p rules) as S. apply same_frame in S.
     destruct (m_run (mc_heap m) f p rules) as [h' r]. cbn [fst snd] in *.
-    destruct r as [x|t|t]; cbn [obind osim]; try reflexivity.
+    destruct r as [x|x|x]; cbn [obind osim]; try reflexivity.
     destruct (mach_frame _ _ m S Av) as [Em (Vr & Va & Vb)].
     destruct (fixed_frame _ _ S Fx) as (Fx' & Er' & Eb' & Eo').
-    unfold inv. cbn [mc_heap mc_regs mc_lastA mc_lastB mc_res].
+    unfold inv. cbn [mc_heap mc_regs mc_lastA mc_lastB mc_res mc_fresh].
     split; [|split; [repeat split; assumption | split; [exact Fx' | split; [congruence | split; congruence]]]].
-    subst a. unfold amach_of in *. cbn [mc_regs mc_lastA mc_lastB mc_res am_regs am_lastA am_lastB am_res] in *.
+    subst a. unfold amach_of, am_with_res in *.
+    cbn [mc_regs mc_lastA mc_lastB mc_res mc_fresh am_regs am_lastA am_lastB am_res am_fresh] in *.
     inversion Em as [[E1 E2 E3]]. rewrite E1, E2, E3. reflexivity.
   Qed.
 
-  Lemma step_sim m a areg abk aoutf o :
-    inv m a areg abk aoutf -> run_dom m o true = true ->
-    osim (mstep f reg bk outf rules m o) (astep f areg abk aoutf rules (Ok a) o) areg abk aoutf.
+  Lemma step_sim m a atab abk aoutf o :
+    inv m a atab abk aoutf -> run_dom m o true = true ->
+    osim (mstep f t bk outf rules m o) (astep f atab abk aoutf rules (Ok a) o) atab abk aoutf.
   Proof.
     intros I D. pose proof I as (Ea & Av & Fx & Er & Eb & Eo).
-    destruct Av as (Vr & Va & Vb). destruct Fx as (Vreg & Vbk & Vof).
-    destruct o as [e|specs|b u|b|b u]; cbn [mstep astep obind].
+    destruct Av as (Vr & Va & Vb). destruct Fx as (Vt & Vbk & Vof).
+    assert (Efr : am_fresh a = mc_fresh m) by (subst a; reflexivity).
+    assert (Erg : am_regs a = map (abs (mc_heap m)) (mc_regs m)) by (subst a; reflexivity).
+    destruct o as [e|specs|l|b u|b|b u]; cbn [mstep astep obind].
     - (* OpTree *)
-      assert (El : length (am_regs a) = length (mc_regs m)) by (subst a; cbn; apply map_length).
-      rewrite El. destruct (itree_ok (length (mc_regs m)) e) eqn:Ok_.
-      + destruct (to_tree_ok _ _ Ok_) as [t Et]. rewrite Et.
-        destruct (eval (mc_heap m) t) as [h' r] eqn:Ee.
+      rewrite Erg, map_length, Efr. destruct (itree_ok (length (mc_regs m)) e) eqn:Ok_.
+      + destruct (to_tree_ok _ _ Ok_) as [tr Et]. rewrite Et.
+        destruct (eval (mc_heap m) tr) as [h' r] eqn:Ee.
         destruct (eval_sim _ _ _ _ _ _ Et Vr Ee) as (S & F & V).
-        apply push_sim; try assumption. subst a. exact S.
+        apply push_sim; assumption.
       + rewrite (to_tree_not_ok _ _ Ok_). reflexivity.
     - (* OpResolve *)
-      destruct (resolve (mc_heap m) reg specs) as [h' r] eqn:Ee.
-      destruct (resolve_sim _ _ _ _ _ Vreg Ee) as (S & F & V).
-      apply push_sim; try assumption. subst areg. exact S.
+      rewrite Efr. destruct (resolve (mc_heap m) (mc_fresh m) t specs) as [[h' c'] r] eqn:Ee. cbn [fst snd].
+      destruct (resolve_sim _ _ _ _ _ _ _ t_objs Vt Ee) as (S & C & F & V).
+      subst atab. cbn zeta. rewrite <- C. apply push_sim; assumption.
+    - (* OpSum *)
+      rewrite Erg, nths_map, Efr. destruct (nths (mc_regs m) l) as [[|p ps]|] eqn:En; cbn [option_map map]; try reflexivity.
+      destruct (psum (mc_heap m) (p :: ps)) as [h' r] eqn:Ee.
+      assert (Vl : Forall (valid (mc_heap m)) (p :: ps)).
+      { rewrite Forall_forall in *. intros q Hq. apply Vr. eapply nths_in; eassumption. }
+      destruct (psum_sim _ _ _ _ Vl Ee) as (S & F & V).
+      change (abs (mc_heap m) p :: map (abs (mc_heap m)) ps) with (map (abs (mc_heap m)) (p :: ps)).
+      apply push_sim; assumption.
     - (* OpInit *)
-      pose proof (user_sim m a areg abk aoutf u I) as U.
-      destruct (mc_user m u) as [up|t|t], (am_user a u) as [aup|t'|t']; cbn [obind osim]; try contradiction; try exact U.
+      pose proof (user_sim m a atab abk aoutf u I) as U.
+      destruct (mc_user m u) as [up|x|x], (am_user a u) as [aup|x'|x']; cbn [obind osim]; try contradiction; try exact U.
       destruct U as [Eu Vu]. subst aup.
       destruct (init (mc_heap m) f bk up outf) as [h' r] eqn:Ei.
       destruct (init_sim _ _ _ _ _ _ _ Vbk Vof Vu Ei) as (S & F & V).
       apply setlast_sim; try assumption; [subst abk aoutf; exact S | intros s Hs; apply V; exact Hs].
     - (* OpRun *)
       cbn [run_dom andb] in D.
-      assert (El : am_last a b = oabs (mc_heap m) (mc_last m b)).
-      { subst a. unfold am_last, mc_last, amach_of. cbn. destruct b; reflexivity. }
       apply run_sim; [exact I|]. intros p Hp. rewrite Hp in D. apply ownedb_owned. exact D.
     - (* OpConvert *)
-      pose proof (user_sim m a areg abk aoutf u I) as U.
-      destruct (mc_user m u) as [up|t|t], (am_user a u) as [aup|t'|t']; cbn [obind osim]; try contradiction; try exact U.
+      pose proof (user_sim m a atab abk aoutf u I) as U.
+      destruct (mc_user m u) as [up|x|x], (am_user a u) as [aup|x'|x']; cbn [obind osim]; try contradiction; try exact U.
       destruct U as [Eu Vu]. subst aup.
       destruct (init (mc_heap m) f bk up outf) as [h' r] eqn:Ei.
       destruct (init_sim _ _ _ _ _ _ _ Vbk Vof Vu Ei) as (S & F & V).
-      pose proof (setlast_sim m a areg abk aoutf b h' r _ I F S (fun s Hs => proj1 (V s Hs))) as L.
+      pose proof (setlast_sim m a atab abk aoutf b h' r _ I F S (fun s Hs => proj1 (V s Hs))) as L.
       rewrite Eb, Eo in L |- *. unfold oabs in *. rewrite <- S in L |- *. rewrite <- Eb, <- Eo in L |- *.
-      destruct r as [s|t0|t0]; unfold mc_set_last in *; cbn [absr snd fst obind osim] in L |- *; try exact L.
+      destruct r as [s|x0|x0]; unfold mc_set_last in *; cbn [absr snd fst obind osim] in L |- *; try exact L.
       match goal with |- osim (mc_run f rules ?m' b) _ _ _ _ =>
-        pose proof (run_sim m' (am_set_last a b (abs h' s)) areg abk aoutf b L) as R end.
+        pose proof (run_sim m' (am_set_last a b (abs h' s)) atab abk aoutf b L) as R end.
       assert (Hl : am_last (am_set_last a b (abs h' s)) b = Some (abs h' s)) by (destruct b; reflexivity).
-      rewrite Hl in R. cbn [am_set_last am_regs am_lastA am_lastB am_res] in R |- *.
-      apply R. intros p Hp. unfold mc_last in Hp. cbn in Hp.
+      rewrite Hl in R. apply R. intros p Hp. unfold mc_last in Hp. cbn in Hp.
       assert (p = s) by (destruct b; inversion Hp; reflexivity). subst p. apply (V s eq_refl).
   Qed.
 End Machines.
@@ -487,13 +481,13 @@ Proof.
   destruct ao as [a|t|t]; [exfalso; apply (H a); reflexivity | |]; cbn [astep obind]; apply IH; intros a; discriminate.
 Qed.
 
-Lemma fold_sim f reg bk outf rules areg abk aoutf prog : forall mo d ao,
+Lemma fold_sim f reg bk outf rules areg abk aoutf prog : objs_only reg -> forall mo d ao,
   (d = true -> osim reg bk outf mo ao areg abk aoutf) ->
   snd (fold_left (mstep_acc f reg bk outf rules) prog (mo, d)) = true ->
   osim reg bk outf (fst (fold_left (mstep_acc f reg bk outf rules) prog (mo, d)))
        (fold_left (astep f areg abk aoutf rules) prog ao) areg abk aoutf.
 Proof.
-  induction prog as [|o prog IH]; intros mo d ao H D; cbn [fold_left] in *.
+  intros O. induction prog as [|o prog IH]; intros mo d ao H D; cbn [fold_left] in *.
   - cbn [fst snd] in *. apply H. exact D.
   - destruct mo as [m|t|t].
     + unfold mstep_acc at 2 in D. unfold mstep_acc at 2. cbn [fst snd] in *.
@@ -538,24 +532,60 @@ Qed.
 Lemma F2_len {A B} (R : A -> B -> Prop) l1 l2 : Forall2 R l1 l2 -> length l1 = length l2.
 Proof. induction 1; cbn; congruence. Qed.
 
-Lemma def_rel_abs h d p : def_rel h d p -> gentry h p = adef d /\ valid h p.
+Lemma def_rel_abs h d p : def_rel h d p -> gval h p = adef d /\ valid h p.
 Proof.
   intros (A & B & C & D & E & F & G). split; [|exact G].
-  unfold gentry, adef, abs. rewrite A, B, C, D, E, F. reflexivity.
+  unfold gval, adef, abs, apipe_of. rewrite A, B, C, D, F. reflexivity.
+Qed.
+
+Lemma F2_nth {A B} (R : A -> B -> Prop) l1 l2 : Forall2 R l1 l2 -> forall i,
+  match nth_error l1 i, nth_error l2 i with
+  | Some a, Some b => R a b
+  | None, None => True
+  | _, _ => False
+  end.
+Proof.
+  induction 1 as [|a b l1 l2 Hab F IH]; intros [|i]; cbn; try exact I; [exact Hab | apply IH].
+Qed.
+
+Definition tn_objs (tn : list (str * rent nat)) : Prop := forall e, In e tn -> exists i, snd e = RObj i.
+
+Lemma conv_tab_rel h ds l1 tn : Forall2 (def_rel h) ds l1 -> tn_objs tn ->
+  match conv_tab l1 tn, conv_tab (map adef ds) tn with
+  | Some t, Some atab => atab = map (gent h) t /\ objs_only t /\ (forall e, In e t -> valid h (ent_ppl e))
+  | None, None => True
+  | _, _ => False
+  end.
+Proof.
+  intros F. induction tn as [|[s e] tn IH]; intros O; cbn [conv_tab].
+  - split; [reflexivity|]. split; intros e [].
+  - destruct (O (s, e) (or_introl eq_refl)) as [i Hi]. cbn [snd] in Hi. subst e.
+    specialize (IH (fun e He => O e (or_intror He))).
+    pose proof (F2_nth _ _ _ F i) as Hn. rewrite nth_error_map.
+    destruct (nth_error ds i) as [d|], (nth_error l1 i) as [p|]; cbn [option_map]; try contradiction.
+    + destruct (conv_tab l1 tn) as [t|], (conv_tab (map adef ds) tn) as [atab|]; try contradiction; try exact I.
+      destruct IH as (E & Ob & V). destruct (def_rel_abs _ _ _ Hn) as [G Vp].
+      split; [cbn [map]; unfold gent at 1; cbn [fst snd]; rewrite G, E; reflexivity|].
+      split.
+      * intros x [<-|Hx]; [exists p; reflexivity | apply Ob; exact Hx].
+      * intros x [<-|Hx]; [exact Vp | apply V; exact Hx].
+    + destruct (conv_tab l1 tn), (conv_tab (map adef ds) tn); exact I.
 Qed.
 
 (* FULL STATEMENT (false: C14_reuse_refuted): the premise `snd (mexec ...) = true` dropped.
-   For every history of API calls in which the initial objects are distinct and every conversion
-   without re-initialisation runs a pipeline that still owns its objects, the heap machine shows
-   exactly what the value-only specification shows (same output, applied, state, ids, vars, or the
-   same error). *)
-Theorem history_sound f defs bkd outd rules prog h0 l :
+   For every history of API calls over a resolver table of registered objects (identifiers
+   arbitrary) in which the initial objects are distinct and every conversion without
+   re-initialisation runs a pipeline that still owns its objects, the heap machine shows exactly
+   what the value-only specification shows (same output, applied, state, ids, vars, or the same
+   error). *)
+Theorem history_sound f defs tn bkd outd rules prog h0 l :
+  tn_objs tn ->
   mk_defs h_empty (defs ++ [bkd; outd]) = (h0, Ok l) ->
-  snd (mexec f defs bkd outd rules prog) = true ->
-  fst (mexec f defs bkd outd rules prog)
-  = aexec f (map adef defs) (fst (fst (adef bkd))) (fst (fst (adef outd))) rules prog.
+  snd (mexec f defs tn bkd outd rules prog) = true ->
+  fst (mexec f defs tn bkd outd rules prog)
+  = aexec f (map adef defs) tn (apipe_of bkd) (apipe_of outd) rules prog.
 Proof.
-  intros E0 D. unfold mexec in *. rewrite E0 in *. cbn [fst snd] in *.
+  intros TO E0 D. unfold mexec in *. rewrite E0 in *. cbn [fst snd] in *.
   destruct (mk_defs_spec _ _ _ _ E0) as (_ & _ & F).
   apply Forall2_app_inv_l in F. destruct F as (l1 & l2 & F1 & F2 & ->).
   inversion F2 as [|? bk ? l3 Rb F3]; subst. inversion F3 as [|? outf ? l4 Ro F4]; subst. inversion F4; subst.
@@ -567,29 +597,30 @@ Proof.
   { rewrite nth_error_app2 by lia. replace (S (length l1) - length l1)%nat with 1%nat by lia. reflexivity. }
   rewrite N1, N2 in *. rewrite firstn_app, Nat.sub_diag, firstn_all in *. cbn [firstn] in *. rewrite app_nil_r in *.
   destruct (def_rel_abs _ _ _ Rb) as [Gb Vb], (def_rel_abs _ _ _ Ro) as [Go Vo].
-  assert (Gl : map (gentry h0) l1 = map adef defs /\ Forall (valid h0) l1).
+  assert (Gl : map (gval h0) l1 = map adef defs /\ Forall (valid h0) l1).
   { clear - F1. induction F1 as [|d p ds ps R F IH]; [split; constructor|].
     destruct IH as [IH1 IH2]. destruct (def_rel_abs _ _ _ R) as [G V]. cbn [map]. rewrite G, IH1.
     split; [reflexivity | constructor; assumption]. }
   destruct Gl as [Gl Vl].
-  set (m0 := {| mc_heap := h0; mc_regs := l1; mc_lastA := None; mc_lastB := None; mc_res := None |}) in *.
-  set (areg := map adef defs) in *.
-  pose proof (fold_sim f l1 bk outf rules areg (fst (fst (adef bkd))) (fst (fst (adef outd))) prog
+  unfold aexec. pose proof (conv_tab_rel h0 defs l1 tn F1 TO) as CT.
+  destruct (conv_tab l1 tn) as [t|], (conv_tab (map adef defs) tn) as [atab|]; try contradiction; [|reflexivity].
+  destruct CT as (Et & Ot & Vt).
+  set (m0 := {| mc_heap := h0; mc_regs := l1; mc_lastA := None; mc_lastB := None; mc_res := None; mc_fresh := 0 |}) in *.
+  pose proof (fold_sim f t bk outf rules atab (apipe_of bkd) (apipe_of outd) prog Ot
                 (Ok m0) true
-                (Ok {| am_regs := map (fun e : aentry => fst (fst e)) areg; am_lastA := None; am_lastB := None; am_res := None |})) as S.
-  unfold aexec.
-  destruct (fold_left (mstep_acc f l1 bk outf rules) prog (Ok m0, true)) as [mo d]. cbn [fst snd] in *.
+                (Ok {| am_regs := map fst (map adef defs); am_lastA := None; am_lastB := None; am_res := None; am_fresh := 0 |})) as S.
+  destruct (fold_left (mstep_acc f t bk outf rules) prog (Ok m0, true)) as [mo d]. cbn [fst snd] in *.
   match type of S with ?P -> _ => assert (HP : P) end.
-  { intros _. cbn [osim]. unfold inv. cbn [mc_heap]. split; [|split; [|split; [|split; [|split]]]].
-    - unfold amach_of. cbn [mc_regs mc_lastA mc_lastB mc_res oabs option_map]. f_equal.
-      subst areg m0. cbn [mc_heap mc_regs]. rewrite <- Gl, !map_map. reflexivity.
+  { intros _. cbn [osim]. unfold inv. subst m0. cbn [mc_heap]. split; [|split; [|split; [|split; [|split]]]].
+    - unfold amach_of. cbn [mc_regs mc_lastA mc_lastB mc_res mc_fresh oabs option_map]. f_equal.
+      rewrite <- Gl, !map_map. reflexivity.
     - unfold allvalid. cbn. split; [exact Vl|]. split; intros q Hq; discriminate.
     - unfold fixedok. repeat split; assumption.
-    - symmetry. exact Gl.
-    - rewrite <- Gb. reflexivity.
-    - rewrite <- Go. reflexivity. }
+    - exact Et.
+    - change (apipe_of bkd) with (fst (adef bkd)). rewrite <- Gb. reflexivity.
+    - change (apipe_of outd) with (fst (adef outd)). rewrite <- Go. reflexivity. }
   specialize (S HP D).
-  destruct mo as [m|t|t]; destruct (fold_left (astep _ _ _ _ _) prog _) as [a|t'|t']; cbn [osim] in S; try contradiction;
+  destruct mo as [m|x|x]; destruct (fold_left (astep _ _ _ _ _) prog _) as [a|x'|x']; cbn [osim] in S; try contradiction;
     cbn [obind]; try congruence.
   destruct S as (Ea & _). subst a. unfold amach_of. cbn [am_res]. reflexivity.
 Qed.
@@ -602,20 +633,20 @@ Definition w_prog_stale : list op := [OpTree w_sum; OpInit false (Some 2%nat); O
 Definition w_prog_fresh : list op := [OpTree w_sum; OpTree w_sum; OpConvert false (Some 3%nat)].
 
 Lemma history_refuted :
-  exists f defs bkd outd rules prog l,
-    snd (mk_defs h_empty (defs ++ [bkd; outd])) = Ok l /\
-    snd (mexec f defs bkd outd rules prog) = false /\
-    fst (mexec f defs bkd outd rules prog)
-    <> aexec f (map adef defs) (fst (fst (adef bkd))) (fst (fst (adef outd))) rules prog.
+  exists f defs tn bkd outd rules prog l,
+    tn_objs tn /\ snd (mk_defs h_empty (defs ++ [bkd; outd])) = Ok l /\
+    snd (mexec f defs tn bkd outd rules prog) = false /\
+    fst (mexec f defs tn bkd outd rules prog)
+    <> aexec f (map adef defs) tn (apipe_of bkd) (apipe_of outd) rules prog.
 Proof.
-  exists FState, [w_defA; w_defE (Some [98])], (w_defE None), (w_defE None), w_rules, w_prog_stale.
-  eexists. split; [vm_compute; reflexivity|]. split; [vm_compute; reflexivity|]. vm_compute. discriminate.
+  exists FState, [w_defA; w_defE (Some [98])], [], (w_defE None), (w_defE None), w_rules, w_prog_stale.
+  eexists. split; [intros e []|]. split; [vm_compute; reflexivity|]. split; [vm_compute; reflexivity|]. vm_compute. discriminate.
 Qed.
 
 Lemma history_inhabited :
   exists l, snd (mk_defs h_empty ([w_defA; w_defE (Some [98])] ++ [w_defE None; w_defE None])) = Ok l /\
-  snd (mexec FState [w_defA; w_defE (Some [98])] (w_defE None) (w_defE None) w_rules w_prog_fresh) = true /\
-  exists r, fst (mexec FState [w_defA; w_defE (Some [98])] (w_defE None) (w_defE None) w_rules w_prog_fresh) = Ok r.
+  snd (mexec FState [w_defA; w_defE (Some [98])] [] (w_defE None) (w_defE None) w_rules w_prog_fresh) = true /\
+  exists r, fst (mexec FState [w_defA; w_defE (Some [98])] [] (w_defE None) (w_defE None) w_rules w_prog_fresh) = Ok r.
 Proof.
   eexists. split; [vm_compute; reflexivity|]. split; [vm_compute; reflexivity|]. eexists. vm_compute. reflexivity.
 Qed.
